@@ -58,6 +58,10 @@ CLAIMED = {
          "Exploration: chains of 1-6 Add/Remove/Keep steps over facing(n, angle) and near_mesh(ref, all|any, distance, planar?, angle?) on boxes, spheres, tori and height fields with a slightly moved / partial reference mesh, from none / all / random index selections; after every step the library's selection must equal the model's set operation on every face whose predicate is outside the guard bands; the whole chain is repeated and re-run with permuted starting indices and must give the identical selection; create_from_indices / create_mesh must contain exactly the selected triangles (bit-equal coordinates, same winding) and only the vertices they use.",
          "The per-vertex projection onto the reference mesh is taken from the public project_with_max_dist (declared exception); thresholds have guard bands (1e-9 relative, 1e-7 rad); empty selections are not turned into meshes.",
          "3 / C14"),
+ "C15": ("runtime monitor: brute-force oracles over all points / faces for every query; 7-sigma frequency monitor for uniform sampling; the dependency's leaf-size rule replayed to classify point sets",
+         "Exploration: KdTree<2>, KdTree<3>, PartialKdTree<3> nearest_one / nearest(k) / within(r) on uniform, clustered, integer-grid, axis-line and duplicated point sets (1..20000 points) with queries inside, outside and on points, k = 1..n+3, radii 0..2x extent, each result compared with an exhaustive scan (distances, index/distance agreement, membership, order, no repeats); sample_poisson_disk over random visiting orders (subset, first kept, pairwise separation, coverage); Mesh sample_uniform / sample_dense / sample_poisson (on surface, face normal, per-face frequency, separation); convex_hull_2d / farthest_pair_indices / point_order_direction / from_points_ccw against O(n^2) definitions; ball pivoting (centre distances, empty ball).",
+         "Ties between equal distances are free; radius membership is not judged within 1e-12 relative of the radius; the uniform-sampling clause is statistical (false-alarm probability < 1e-9 per run). Known findings: every index-returning k-d tree clause in the class 'tree-leaf>32-points' (kiddo 5.0.3 defect); the class 'tree-leaves<=32-points' is judged strictly.",
+         "3 / C15"),
  "C16": ("runtime monitor: brute-force signed-distance oracle for deviations; Vec / three-vector sequential models over random call histories for the aggregates; defining rule for the breakpoint table",
          "Exploration: point_curve2_deviation / line_surface_deviations / Mesh::measure_point_deviation (both modes) with measured points on both sides, in the 1e-6 coincidence band, at corners and beyond open ends; Distance2/Distance3 value, reversal, centre; histories of up to 200 SurfaceDeviationSet new/push/push_new calls with ties, equal extremes and one-signed values checked after every call against a Vec model (max, min, symmetric zone, len, order); histories of PointCloud try_new/empty/append/merge/create_from_indices/transform with consistent and inconsistent normal/colour presence (accepted operations append exactly, rejected ones change nothing, lengths stay equal); breakpoint tables queried at, between, one ulp around and beyond both ends.",
          "Deviation sign judged only where the closest edges/faces agree on the side; below the library's absolute 1e-6 coincidence threshold only |value| <= distance is required.",
